@@ -256,7 +256,11 @@ theorem after_end {l l' : Life} (h : Reach l) (hc : l.chanClosed = true) (e : Ev
 
 /-- **no_hang (progress on one side).** A side whose channel is closed (by whatever: a failed request send, a close
 inside a callback) and that still has blocked waiters: their next `serve()` — which meets the closed stream — is
-always possible, closes the side and releases every one of them without a value. -/
+always possible, closes the side and releases every one of them without a value.  (The hypothesis `_hc` is not used by
+the proof: `eofInServe` is enabled in every state of the automaton, so "progress" here means "the step is enabled and
+leads there"; `_hc` records WHEN the code takes that step — a `serve()` on a closed channel meets EOFError.  That the
+blocked thread's `poll()` actually returns is the channel law assumed for the pair, not proved: see the PipeStream
+finding.) -/
 theorem blocked_waiter_next_serve_releases {l : Life} (h : Reach l) (_hc : l.chanClosed = true) (r : TryRes) :
     ∃ l' res, step l (.eofInServe r) = some l' ∧ l'.closed = true ∧ l'.blocked = [] ∧ res.isValue = false
       ∧ Released res l l' := by
